@@ -62,6 +62,16 @@ def out_file(draw, i):
     return {'name': name, 'kind': 'binary', 'hex': (head + body).hex()}
 
 
+# where the output files go and how gentest is told about them; the
+# 'outside' forms are directories that are not under the working directory
+# `<root>/work`: elsewhere, a sibling whose name starts with the working
+# directory's name, and the same sibling given as a relative ../ path
+HOWS = ['explicit', 'default', 'subdir', 'glob', 'outside',
+        'outside_sibling', 'outside_rel']
+OUTSIDE = {'outside': 'elsewhere', 'outside_sibling': 'work_out',
+           'outside_rel': 'work2'}
+
+
 @st.composite
 def command_case(draw, tier='quick'):
     nfiles = draw(st.sampled_from([0, 0, 1, 1, 2, 3]))
@@ -74,8 +84,7 @@ def command_case(draw, tier='quick'):
         names.add(f['name'].lower())
         files.append(f)
     exit_code = draw(st.sampled_from([0, 0, 0, 1, 2, 3]))
-    how = draw(st.sampled_from(['explicit', 'default', 'subdir', 'glob',
-                                'outside']))
+    how = draw(st.sampled_from(HOWS))
     if not files:
         how = 'default'
     if how == 'glob' and any('.' not in f['name'] for f in files):
@@ -116,8 +125,7 @@ def valid_case(case):
                 if not bytes.fromhex(f['hex']):
                     return False
         return (case['exit'] in (0, 1, 2, 3)
-                and case['how'] in ('explicit', 'default', 'subdir', 'glob',
-                                    'outside')
+                and case['how'] in HOWS
                 and all(isinstance(a, str) and a in CMD_ARGS
                         for a in case.get('args', []))
                 and (case['files'] or case['how'] == 'default')
@@ -157,10 +165,12 @@ class Workdir(object):
             'TMPDIR': self.tmp, 'USER': 'tvuserzq', 'HOST': ctx_env['host'],
         }
         self.outdir = 'outdir' if case['how'] == 'subdir' else ''
-        if case['how'] == 'outside':
-            # an absolute directory outside the working directory and
-            # outside $TMPDIR; the files are named explicitly
-            self.outdir = os.path.join(root, 'elsewhere')
+        if case['how'] in OUTSIDE:
+            # a directory outside the working directory and outside
+            # $TMPDIR; the files are named explicitly
+            self.outdir = os.path.join(root, OUTSIDE[case['how']])
+            if case['how'] == 'outside_rel':
+                self.outdir = os.path.join('..', OUTSIDE[case['how']])
         if self.outdir:
             os.makedirs(os.path.join(self.w, self.outdir), exist_ok=True)
         self.write_payloads()
@@ -230,7 +240,7 @@ class Workdir(object):
 
     def ref_args(self):
         how = self.case['how']
-        if how in ('explicit', 'outside'):
+        if how == 'explicit' or how in OUTSIDE:
             return [self.out_name(f) for f in self.case['files']]
         if how == 'subdir':
             return ['outdir']
